@@ -66,11 +66,11 @@ def pad_case(vd, region, pad, kind):
                 term, repro, kind)
 
 
-def nodes_case(vd, region, east, north, count, desc, repro, kind, reproducible=True):
+def nodes_case(vd, region, east, north, count, desc, repro, kind, reproducible=True, exact=True):
     e = np.asarray(east, dtype=float).ravel()
     n = np.asarray(north, dtype=float).ravel()
     cnt = count if reproducible else -1
-    term = "c13_nodes_inside %s %s %s %s" % (dl(region), dl(e), dl(n), cZ(cnt))
+    term = "c13_nodes_inside %s %s %s %s %s" % (dl(region), dl(e), dl(n), cZ(cnt), cbool(exact))
     return Case(desc, {"n_nodes": int(e.size), "easting_minmax": [float(e.min()), float(e.max())] if e.size else [],
                        "northing_minmax": [float(n.min()), float(n.max())] if n.size else [], "reproducible": reproducible},
                 term, repro, kind)
@@ -93,13 +93,20 @@ def project_case(vd, region, name, fn, kind):
         return out
 
     out = vd.project_region(region, proj)
-    ie, inn = log["in"]
-    E = ie.reshape(101, 101)
-    N = inn.reshape(101, 101)
-    mesh_ok = bool(np.all(E == E[0]) and np.all(N == N[:, :1]))
+    ie, inn = log.get("in", (np.zeros(0), np.zeros(0)))
+    mesh_ok = ie.size == 101 * 101 and inn.size == 101 * 101
+    if mesh_ok:
+        E = ie.reshape(101, 101)
+        N = inn.reshape(101, 101)
+        mesh_ok = bool(np.all(E == E[0]) and np.all(N == N[:, :1]))
     e1 = E[0] if mesh_ok else np.zeros(0)
     n1 = N[:, 0] if mesh_ok else np.zeros(0)
-    term = "c13_project_region %s %s %s %s %s %s" % (dl(region), dl(e1), dl(n1), dl(log["out"][0]), dl(log["out"][1]), dl(out))
+    # independent oracle: the projection applied to the 101 x 101 nodes of the region
+    oe, on = np.meshgrid(np.linspace(region[0], region[1], 101), np.linspace(region[2], region[3], 101))
+    pe, pn = fn(oe.ravel(), on.ravel())
+    oracle = [np.min(pe), np.max(pe), np.min(pn), np.max(pn)]
+    lo = log.get("out", (np.zeros(0), np.zeros(0)))
+    term = "c13_project_region %s %s %s %s %s %s %s" % (dl(region), dl(e1), dl(n1), dl(lo[0]), dl(lo[1]), dl(oracle), dl(out))
     repro = "# projection %s\nimport verde; print(verde.project_region(%r, <projection %s>))" % (name, list(region), name)
     return Case({"fn": "project_region", "region": list(region), "projection": name}, [float(x) for x in out], term, repro, kind)
 
@@ -128,6 +135,7 @@ PROJECTIONS = {
     "mercator-like": lambda e, n: (e * 1000.0, 1000.0 * np.arcsinh(np.tan(np.radians(np.clip(n, -80, 80))))),
     "non-monotone": lambda e, n: ((e - 1.0) ** 2 + n, np.sin(n) + 0.1 * e),
     "rotation": lambda e, n: (0.6 * e - 0.8 * n, 0.8 * e + 0.6 * n),
+    "interior-extremum": lambda e, n: (e ** 2 + n ** 2, n - 0.5 * e * e),
 }
 
 
@@ -148,24 +156,34 @@ def generate(tier, seed):
         if i % 3 == 0 and m % 2 == 0:
             ex = np.array(ex).reshape(2, m // 2)
             ny = np.array(ny).reshape(2, m // 2)
-        cases.append(inside_case(vd, (w, e, s, n), ex, ny, "inside"))
-        cases.append(get_region_case(vd, ex, ny, "get_region"))
+        cases.append(core.guarded(lambda: inside_case(vd, (w, e, s, n), ex, ny, "inside"), {"fn": "inside_case"}, "inside_case"))
+        cases.append(core.guarded(lambda: get_region_case(vd, ex, ny, "get_region"), {"fn": "get_region_case"}, "get_region_case"))
     # corners exactly
-    cases.append(inside_case(vd, (0.0, 1.0, 2.0, 3.0), [0, 1, 0, 1, 0.5, -1e-300, 1 + 2 ** -52], [2, 2, 3, 3, 2.5, 2, 3], "inside-corners"))
+    cases.append(core.guarded(lambda: inside_case(vd, (0.0, 1.0, 2.0, 3.0), [0, 1, 0, 1, 0.5, -1e-300, 1 + 2 ** -52], [2, 2, 3, 3, 2.5, 2, 3], "inside-corners"), {"fn": "inside_case"}, "inside_case"))
     # pads
     for reg in [(0.0, 5.0, -10.0, -5.0), (-2.5, 1.25, 3.0, 4.75), (1e6, 1e6 + 4.0, -1e6, -1e6 + 3.0), (0.0, 0.0, 1.0, 1.0)]:
         for pad in [1.0, 0.1, -0.5, (3.0, 1.0), (0.25, -0.75), (1e3, 1e-3)]:
-            cases.append(pad_case(vd, reg, pad, "pad"))
+            cases.append(core.guarded(lambda: pad_case(vd, reg, pad, "pad"), {"fn": "pad_case"}, "pad_case"))
     for i in range(20 if tier == "quick" else 200):
         w = rnd.uniform(-100, 100)
         s = rnd.uniform(-100, 100)
         reg = (w, w + rnd.uniform(0, 50), s, s + rnd.uniform(0, 50))
         pad = rnd.uniform(-5, 5) if i % 2 else (rnd.uniform(-5, 5), rnd.uniform(-5, 5))
-        cases.append(pad_case(vd, reg, pad, "pad-random"))
+        cases.append(core.guarded(lambda: pad_case(vd, reg, pad, "pad-random"), {"fn": "pad_case"}, "pad_case"))
     # grid nodes inside
     regs = [(0.0, 5.0, 0.0, 10.0), (-2.5, 1.25, 3.0, 4.75), (1e6, 1e6 + 4.0, -1e6, -1e6 + 3.0), (-0.3, 0.7, 0.1, 0.2), (0.0, 0.0, 0.0, 1.0)]
     for reg in regs:
         for pix in (False, True):
+            for shp in [(148, 170), (282, 23), (12, 295), (97, 101)]:
+                # large node counts (where a recomputed last node could miss the bound by an ulp): 1-D vectors
+                g = vd.grid_coordinates(reg, shape=shp, pixel_register=pix, meshgrid=False)
+                m = min(len(g[0]), len(g[1]))
+                ee = np.concatenate([g[0][:m], g[0][-m:]])
+                nn = np.concatenate([g[1][:m], g[1][-m:]])
+                cases.append(nodes_case(vd, reg, ee, nn, 2 * m,
+                                        {"fn": "grid_coordinates", "region": list(reg), "shape": shp, "pixel": pix, "meshgrid": False},
+                                        "import verde; print(verde.grid_coordinates(%r, shape=%r, pixel_register=%r, meshgrid=False))" % (list(reg), shp, pix),
+                                        "grid-nodes-large"))
             for shp in [(1, 1), (2, 3), (5, 4), (7, 1), (1, 6), (10, 11)]:
                 g = vd.grid_coordinates(reg, shape=shp, pixel_register=pix)
                 cases.append(nodes_case(vd, reg, g[0], g[1], shp[0] * shp[1],
@@ -190,23 +208,23 @@ def generate(tier, seed):
                 cases.append(nodes_case(vd, reg, a[0], a[1], size,
                                         {"fn": "scatter_points", "region": list(reg), "size": size, "random_state": sd},
                                         "import verde; print(verde.scatter_points(%r, size=%r, random_state=%r))" % (list(reg), size, sd),
-                                        "scatter", reproducible=same))
+                                        "scatter", reproducible=same, exact=False))
     # project_region
-    pregs = [(3.0, 5.0, -9.0, -4.0), (-2.0, 2.5, -1.0, 1.0)] if tier == "quick" else \
-        [(3.0, 5.0, -9.0, -4.0), (-2.0, 2.5, -1.0, 1.0), (0.0, 1.0, 0.0, 1.0), (-60.0, -40.0, -30.0, 10.0)]
+    pregs = [(3.0, 5.0, -9.0, -4.0), (-1.0, 1.0, -1.0, 1.0)] if tier == "quick" else \
+        [(3.0, 5.0, -9.0, -4.0), (-1.0, 1.0, -1.0, 1.0), (-2.0, 2.5, -1.0, 1.0), (0.0, 1.0, 0.0, 1.0), (-60.0, -40.0, -30.0, 10.0)]
     for reg in pregs:
         for name, fn in PROJECTIONS.items():
-            cases.append(project_case(vd, reg, name, fn, "project_region"))
+            cases.append(core.guarded(lambda: project_case(vd, reg, name, fn, "project_region"), {"fn": "project_case"}, "project_case"))
     # maxabs
     for i in range(30 if tier == "quick" else 300):
         arrays = [[rnd.choice([rnd.uniform(-100, 100), -25.0, 25.0, 0.0, -1e-300]) for _ in range(rnd.randint(1, 8))]
                   for _ in range(rnd.randint(1, 4))]
         if i % 5 == 0:
             arrays[0] = np.array(arrays[0] + arrays[0]).reshape(2, -1)
-        cases.append(maxabs_case(vd, arrays, "maxabs"))
-    cases.append(maxabs_case(vd, [[1.0, -10.0, 25.0, 2.0, 3.0]], "maxabs"))
-    cases.append(maxabs_case(vd, [[1.0, -10.5, 25.0], [0.1, 100.0, -500.0, -200.0, -0.1]], "maxabs"))
-    cases.append(maxabs_case(vd, [[-3.0, -2.0], [1.0]], "maxabs"))
+        cases.append(core.guarded(lambda: maxabs_case(vd, arrays, "maxabs"), {"fn": "maxabs_case"}, "maxabs_case"))
+    cases.append(core.guarded(lambda: maxabs_case(vd, [[1.0, -10.0, 25.0, 2.0, 3.0]], "maxabs"), {"fn": "maxabs_case"}, "maxabs_case"))
+    cases.append(core.guarded(lambda: maxabs_case(vd, [[1.0, -10.5, 25.0], [0.1, 100.0, -500.0, -200.0, -0.1]], "maxabs"), {"fn": "maxabs_case"}, "maxabs_case"))
+    cases.append(core.guarded(lambda: maxabs_case(vd, [[-3.0, -2.0], [1.0]], "maxabs"), {"fn": "maxabs_case"}, "maxabs_case"))
     # invalid / valid regions through every entry point
     for reg in [(5.0, 0.0, 0.0, 1.0), (0.0, 1.0, 2.0, 1.0), (0.0, 1.0, 0.0), (0.0, 1.0, 0.0, 1.0, 2.0), (1.0, 1.0, 1.0, 1.0),
                 (0.0, 1.0, 0.0, 1.0), (1.0 + 2 ** -52, 1.0, 0.0, 1.0), (0.0, 1.0, -1.0, -1.0 - 2 ** -52)]:
@@ -216,7 +234,7 @@ def generate(tier, seed):
                     pass
                 else:
                     pass
-            cases.append(region_check_case(vd, reg, how, "region-check"))
+            cases.append(core.guarded(lambda: region_check_case(vd, reg, how, "region-check"), {"fn": "region_check_case"}, "region_check_case"))
     return cases
 
 
